@@ -47,7 +47,13 @@ func TestVerifC16MetricsRace(t *testing.T) {
 		}
 		adders := 2 + r.Intn(7)
 		per := 300 + r.Intn(2701)
-		desc := fmt.Sprintf("case=%d;adders=%d per=%d drops_only_period=%d", idx, adders, per, []int{0, 1, 1, 3, 7}[idx%5])
+		// round 13: a burst period - more than 90 000 tasks between two flushes (no explicit Flush while the
+		// adders run, the report interval is a minute): every one of them must still be aggregated
+		burst := idx%8 == 3
+		if burst {
+			per = 90000/adders + 1 + idx
+		}
+		desc := fmt.Sprintf("case=%d;adders=%d per=%d drops_only_period=%d burst=%v", idx, adders, per, []int{0, 1, 1, 3, 7}[idx%5], burst)
 		w := &c16Writer{}
 		SetReportWriter(w)
 		mt := NewMetrics(fmt.Sprintf("c16-%d", idx))
@@ -70,7 +76,7 @@ func TestVerifC16MetricsRace(t *testing.T) {
 						mt.AddDrop()
 						drops++
 					}
-					if rr.Intn(500) == 0 {
+					if rr.Intn(500) == 0 && !burst {
 						mt.executor.Flush()
 					}
 				}
@@ -113,6 +119,9 @@ func TestVerifC16MetricsRace(t *testing.T) {
 			m.Violate("C16:metrics:duration-not-conserved", desc, "reports account for %.0f ms total latency, want %.0f", durMs, 10*want)
 		}
 		m.Count("tasks_added", int64(adders*per))
+		if burst {
+			m.Count("burst_periods_over_90000_tasks", 1)
+		}
 		m.Count("reports_written", int64(reports))
 		m.Case(vk.Digest(desc), reports > 1)
 		if m.WantSample() {
